@@ -30,7 +30,7 @@ import (
 )
 
 const c19Rule = "layer 1: arbitrary config.Config values (nil/non-nil switches, zero/negative/positive numbers) through SetDefaults, twice; layer 2: generated 'olareg serve' flag vectors (--api-push --api-delete --api-blob-delete " +
-	"--api-referrer --store-ro --store-type --dir --warning* --rate-limit) started as real processes on loopback, probed with a fixed battery, compared with the behaviour table derived from the flag help; layer 3: generated request " +
+	"--api-referrer --store-ro --store-type --dir --warning* --rate-limit --addr {IPv4, IPv6 literal with and without brackets, localhost} --gc-grace-period; --dir written by a server with the referrers API on or off) started as real processes on loopback, probed with a fixed battery, compared with the behaviour table derived from the flag help; layer 3: generated request " +
 	"sequences from several client addresses with virtual delays against RateLimit 1-5 inside a synctest bubble, compared with the accounting-window model; layer 4: SIGTERM/SIGINT at a generated moment (idle, during a slow upload, " +
 	"during a burst, with and without --rate-limit), exit status and storage checked; non-trivial = vector differs from all-defaults in >=2 flags / >=2 addresses of which >=1 exceeds the limit / a set and an unset field; distinct = hash of the case"
 
